@@ -52,6 +52,18 @@ class _Fut(object):
         return self.val
 
 
+class audited_datasource(plugins.datasource):
+    """a specialised datasource type, as a project built on the framework may define"""
+    audited = True
+
+
+class strict_audited_datasource(audited_datasource):
+    no_redact = True
+
+
+DS_TYPES = [plugins.datasource, audited_datasource, strict_audited_datasource]
+
+
 class FalsyCallable(object):
     """a component that is a callable OBJECT whose truth value is False (an empty container that can be called):
     components are identified by identity / hash, never by truthiness"""
@@ -274,7 +286,8 @@ class World(object):
         elif kind == "rule":
             deco = plugins.rule(*items, **kw)
         elif kind == "datasource":
-            deco = plugins.datasource(*items, multi_output=s.get("multi", False), **kw)
+            # the decorator is the datasource type itself or a type derived from it (one or two levels): still a datasource
+            deco = DS_TYPES[s.get("dstype", 0)](*items, multi_output=s.get("multi", False), **kw)
         elif kind in ("parser1", "parser0"):
             deco = plugins.parser(*items, continue_on_error=(kind == "parser1"))
         else:
@@ -578,6 +591,8 @@ def gen_spec(rng, n, fault_rate=0.25, with_points=True, with_ignore=False, seede
             s["tuple"] = rng.choice([1, 2, 3])
         if kind in ("plain", "plugin", "rule") and rng.random() < 0.1:
             s["falsy"] = True
+        if kind == "datasource" and rng.random() < 0.25:
+            s["dstype"] = rng.choice([1, 2])
         spec.append(s)
     if with_ignore:
         for cid in range(n):
